@@ -3,10 +3,11 @@ use quote::quote;
 use structmeta::{NameArgs, ToTokens};
 use syn::{
     parse::{discouraged::Speculative, Parse, ParseStream},
+    visit_mut::VisitMut,
     Field, Generics, Result, Token, Type, WherePredicate,
 };
 
-use crate::syn_utils::GenericParamSet;
+use crate::syn_utils::{GenericParamSet, ResolveGroups};
 
 #[derive(Clone, ToTokens, Debug)]
 pub enum Bound {
@@ -22,12 +23,14 @@ impl Parse for Bound {
         }
         let fork = input.fork();
         match fork.parse() {
-            Ok(p) => {
+            Ok(mut p) => {
                 input.advance_to(&fork);
+                ResolveGroups.visit_where_predicate_mut(&mut p);
                 Ok(Self::Pred(p))
             }
             Err(e) => {
-                if let Ok(ty) = input.parse() {
+                if let Ok(mut ty) = input.parse() {
+                    ResolveGroups.visit_type_mut(&mut ty);
                     Ok(Self::Type(ty))
                 } else {
                     Err(e)
